@@ -14,7 +14,7 @@ var intrinsicNames = map[string]bool{
 	"vFloat64": true, "vIsSymbolic": true, "vGhostCount": true, "vGhostInt": true, "vFreshBytes": true,
 	"vBytesEq": true, "vNative": true, "vHashOf": true, "vSealed": true, "vAssertStrEqual": true,
 	"vASCII": true, "vObjID": true, "vLog": true, "vFromRNG": true, "vAllocLimit": true, "vPeerAd": true, "vNow": true, "vSymbolic": true,
-	"vNoneOf": true, "vClockWindow": true, "vIteInt": true, "vIteStr": true, "vAdSetStrIf": true, "vPick": true, "vIn": true, "vImplies": true, "vOr": true, "vAnd": true,
+	"vASCIIStr": true, "vNoneOf": true, "vClockWindow": true, "vIteInt": true, "vIteStr": true, "vAdSetStrIf": true, "vPick": true, "vIn": true, "vImplies": true, "vOr": true, "vAnd": true,
 }
 
 func isHarnessIntrinsic(n string) bool { return intrinsicNames[n] }
@@ -190,6 +190,14 @@ func (in *Interp) intrinsic(fn *ssa.Function, args []Value) Value {
 			m = in.memStore(m, tb.Int(int64(j)), tb.Ite(c, in.strByte(a, j), in.strByte(b, j)))
 		}
 		return StrV{Mem: m, Off: tb.Int(0), Len: tb.Ite(c, a.Len, b.Len), Max: mx}
+	case "vASCIIStr":
+		s := args[0].(StrV)
+		bound := in.needBound(s, "vASCIIStr")
+		cs := []*Term{}
+		for i := 0; i < bound; i++ {
+			cs = append(cs, tb.Or(tb.SLe(s.Len, tb.Int(int64(i))), tb.ULt(in.strByte(s, i), tb.Const(8, 0x80))))
+		}
+		return tb.And(cs...)
 	case "vNoneOf":
 		s := args[0].(StrV)
 		chars := []byte(in.argStr(args[1]))
